@@ -22,12 +22,13 @@ import (
 // C08 — coin<->ERC-20 conversion conserves value and keeps token-pair books balanced.
 
 type c08Model struct {
-	holders map[string]bool // hex addresses that may hold ERC-20 balances
-	broken  map[string]bool // pairs whose books were already reported broken in this run (state invariants stay broken)
-	balPre  map[string]sdkmath.Int
-	ercPre  map[string]*big.Int
-	phase   int
-	cycle   int // 0 undecided, 1 this run drives the withdraw-and-redeposit cycle of the externally-owned token, 2 not
+	holders    map[string]bool // hex addresses that may hold ERC-20 balances
+	broken     map[string]bool // pairs whose books were already reported broken in this run (state invariants stay broken)
+	balPre     map[string]sdkmath.Int
+	ercPre     map[string]*big.Int
+	phase      int
+	deadSupply map[string]sdkmath.Int // coin supply of pairs whose token contract destroyed itself
+	cycle      int                    // 0 undecided, 1 this run drives the withdraw-and-redeposit cycle of the externally-owned token, 2 not
 }
 
 func newC08() *c08Model { return &c08Model{holders: map[string]bool{}, broken: map[string]bool{}} }
@@ -138,6 +139,21 @@ func (m *c08Model) check(r *Run, s *Step, o *Outcome) []Violation {
 			// an externally-owned token destroyed itself: its books are gone with it; the pair is removed by
 			// the next conversion (the index checks below the loop still apply to what remains)
 			r.Probe("pair-with-destroyed-contract")
+			// nothing is escrowed any more, so nothing may be issued any more: the coin supply of the pair
+			// (all denominations) can only shrink from here on
+			sup := w.App.BankKeeper.GetSupply(ctx, p.Denom).Amount
+			if md, ok := w.App.BankKeeper.GetDenomMetaData(ctx, p.Denom); ok && len(md.DenomUnits) > 0 {
+				for _, al := range md.DenomUnits[0].Aliases {
+					sup = sup.Add(w.App.BankKeeper.GetSupply(ctx, al).Amount)
+				}
+			}
+			if m.deadSupply == nil {
+				m.deadSupply = map[string]sdkmath.Int{}
+			}
+			if old, ok := m.deadSupply[p.Denom]; ok && sup.GT(old) {
+				vs = append(vs, viol("pair-books", "issued-against-destroyed-contract/"+site, "%s: the token contract is destroyed (nothing escrowed), yet the coin supply over all its denominations grew from %s to %s", p.Denom, old, sup))
+			}
+			m.deadSupply[p.Denom] = sup
 			continue
 		}
 		ts := sdkmath.NewIntFromBigInt(w.ERC20TotalSupply(ctx, tok))
